@@ -26,7 +26,7 @@ theorem evalT_mem_reg (lk : Bytes → Simp.Lookup) (ad r : Reg) :
     Simp.evaluateT lk isRegister (memA ad (rA r)) =
       .ok ⟨false, none⟩ (.addr (.bin .add (.ident (regName ad)) (.ident (regName r)))) := by
   simp [memA, rA, Simp.evaluateT, isRegister_regName, Simp.afterRawT, Simp.simplifyRaw, Simp.isBad, Simp.cval,
-    Simp.merge, Simp.mergeL, Simp.mergeR, Simp.findC, Simp.preInv, Simp.neutralizeRaw, Simp.normAddSub, Simp.stripNeg,
+    Simp.merge, Simp.mergeL, Simp.mergeR, Simp.findC, Simp.preInv, Simp.neutralizeRaw, Simp.neutralizeBin, Simp.normAddSub, Simp.stripNeg,
     Simp.neutralTail, Simp.neutralMain, Simp.Ev.or]
 
 /-- `[R + v]` with `v ≥ 0` is left as it is, except that `[R + 0]` becomes `[R]` -/
@@ -37,10 +37,10 @@ theorem evalT_mem_imm (lk : Bytes → Simp.Lookup) (ad : Reg) (v : Int) (hv : 0 
   by_cases h0 : v = 0
   · subst h0
     simp [memA, rA, Simp.evaluateT, isRegister_regName, Simp.afterRawT, Simp.simplifyRaw, Simp.isBad, Simp.cval,
-      Simp.merge, Simp.mergeL, Simp.mergeR, Simp.findC, Simp.preInv, Simp.neutralizeRaw, Simp.normAddSub, Simp.stripNeg,
+      Simp.merge, Simp.mergeL, Simp.mergeR, Simp.findC, Simp.preInv, Simp.neutralizeRaw, Simp.neutralizeBin, Simp.normAddSub, Simp.stripNeg,
       Simp.neutralTail, Simp.neutralMain, Simp.neutralR, Simp.Ev.or]
   · simp [memA, rA, Simp.evaluateT, isRegister_regName, Simp.afterRawT, Simp.simplifyRaw, Simp.isBad, Simp.cval,
-      Simp.merge, Simp.mergeL, Simp.mergeR, Simp.findC, Simp.preInv, Simp.neutralizeRaw, Simp.normAddSub, Simp.stripNeg,
+      Simp.merge, Simp.mergeL, Simp.mergeR, Simp.findC, Simp.preInv, Simp.neutralizeRaw, Simp.neutralizeBin, Simp.normAddSub, Simp.stripNeg,
       Simp.neutralTail, Simp.neutralMain, Simp.neutralR, Simp.Ev.or, hneg, h0]
 
 /-- **`EvalOK` discharged.** The concrete evaluator over a symbol table in which the label the text mentions
